@@ -1022,8 +1022,7 @@ class PolyhedralTermList(TermList):  # noqa: WPS338
         assert n == len(b), "n is {} and b is {}".format(n, b)
         if helper_present:
             assert n_h == len(b_help)
-        else:
-            assert len(b_help) == 0
+        # a context whose rows mention no variable at all (n_h > 0, m_h == 0) constrains nothing: it is ignored
         if helper_present and m > 0:
             assert m_h == m
         if n == 0:
